@@ -49,10 +49,10 @@ def register(w):
         return H.b_getattr(ex, args)
     w.getattr_hooks.append(getattr_builtin)
 
-    def b_setattr(ex, args, kw):
+    def b_setattr(ex, args, kw=None):
         obj, attr, v = args
         if not (isinstance(obj, VRef) and obj.sort == OBJ):
-            raise OutOfSubset(f"setattr on {obj!r}")
+            return False
         k = H.key(obj, attr)
         installed = z3.Select(ex.ghost["PSp"], k) if "PSp" in ex.ghost else z3.BoolVal(False)
         if ex.branch(z3.And(refused(k), z3.Not(installed))):
@@ -63,7 +63,7 @@ def register(w):
             raise OutOfSubset(f"setattr value {v!r}")
         vt = H.NONEVAL if isinstance(v, VNone) else v.term
         ex.ghost["D"] = z3.Store(H.D(ex), k, vt)
-        return NONE
+        return True
 
     def b_vars(ex, args, kw):
         o = args[0]
@@ -79,17 +79,20 @@ def register(w):
 
     from pyvc.world import BUILTINS
     BUILTINS["vars"] = VFunc("builtin", "vars", impl=b_vars)
-    BUILTINS["setattr"] = VFunc("builtin", "setattr", impl=b_setattr)
-    def b_delattr(ex, args, kw):
+    w.setattr_hooks.append(b_setattr)
+    def b_delattr(ex, args, kw=None):
         obj, attr = args
+        if not (isinstance(obj, VRef) and obj.sort == OBJ):
+            return False
         if "PSp" in ex.ghost and isinstance(obj, VRef) and obj.sort == OBJ:
             k = H.key(obj, attr)
             # a key recorded in _PATCH_STATE had its patch installed with setattr, and nested bodies
             # restore what they change: the own entry is still there
             ex.assume(z3.Implies(z3.Select(ex.ghost["PSp"], k), z3.Select(H.D(ex), k) != H.ABSENT))
             ex.assumptions_used.add("an attribute recorded in _PATCH_STATE is still an own attribute of its target when it is released (installed by setattr; nested bodies are restoring)")
-        return H.b_delattr(ex, args, kw)
-    BUILTINS["delattr"] = VFunc("builtin", "delattr", impl=b_delattr)
+        H.b_delattr(ex, args, kw)
+        return True
+    w.delattr_hooks.append(b_delattr)
 
     def call_ref(ex, fn, args, kwargs):
         if fn.sort == FN:
